@@ -1,6 +1,7 @@
 //! clusterx — checks that need the real cluster actors in one process (C07, C08, C09, C12, C22).
 mod c07;
 mod c08;
+mod c09;
 mod c12;
 mod c22;
 mod cx;
@@ -11,6 +12,7 @@ fn main() {
     match args.property.as_str() {
         "C07" => c07::run(args),
         "C08" => c08::run(args),
+        "C09" => c09::run(args),
         "C12" => c12::run(args),
         "C22" => c22::run(args),
         p => vcommon::machinery_fail(&format!("clusterx does not serve property {p} (yet)")),
